@@ -145,3 +145,11 @@ def factorize(ctx):
     res = shared.run_model(ctx, "MC_Factorize", cfg, name="MC_Factorize", constants=f"MaxLen={n}, NTok={nt}", coverage=True, must_cover=("Grow",))
     if res.violated:
         raise MachineryFailure(f"MC_Factorize: {res.violated} violated: {res.error_trace[-1:]}")
+
+
+def quantile(ctx):
+    n = 4 if ctx.tier == "quick" else 5
+    cfg = f"SPECIFICATION Spec\nCHECK_DEADLOCK FALSE\nCONSTANTS MaxLen = {n}\nMaskAllNaN = TRUE\nINVARIANT QuantileFloxIsRef\n"
+    res = shared.run_model(ctx, "MC_Quantile", cfg, name="MC_Quantile", constants=f"MaxLen={n}", coverage=True, must_cover=("Grow",))
+    if res.violated:
+        raise MachineryFailure(f"MC_Quantile: {res.violated} violated: {res.error_trace[-1:]}")
